@@ -186,6 +186,16 @@ func (c *Counter) Add(n int64) {
 			debugPrintf("Add %q += %d: locked extra=%d\n", c.name, n, state.extra())
 			return
 
+		case !state.havePtr() && state.readers() > 0:
+			// havePtr was cleared while readers are still using the old pointer.
+			// Taking the lock now would overwrite the reader count; the last of
+			// those readers refreshes the pointer and flushes extra.
+			if !c.state.update(&state, state.addExtra(uint64(n))) {
+				continue
+			}
+			debugPrintf("Add %q += %d: readers extra=%d\n", c.name, n, state.extra())
+			return
+
 		case !state.havePtr():
 			if !c.state.update(&state, state.addExtra(uint64(n)).setLocked()) {
 				continue
